@@ -33,7 +33,7 @@ THEOREMS = [
     'Pyiga.Props.C07.quarter_annulus_radius', 'Pyiga.Props.C07.arcs_on_circle', 'Pyiga.Props.C07.rotation_preserves_circle',
     'Pyiga.Props.C07.translate_bspline_model', 'Pyiga.Props.C07.scale_bspline_model',
     'Pyiga.Props.C07.getitem_bspline_model', 'Pyiga.Props.C07.tensor_product_model',
-    'Pyiga.Props.C07.as_nurbs_model', 'Pyiga.Props.C07.nurbs_routes_agree', 'Pyiga.Props.C07.boundary_jacobian_columns', 'Pyiga.Props.C07.outer_model', 'Pyiga.Props.C07.boundary_model',
+    'Pyiga.Props.C07.as_nurbs_model', 'Pyiga.Props.C07.nurbs_routes_agree', 'Pyiga.Props.C07.boundary_jacobian_columns', 'Pyiga.Props.C07.outer_model', 'Pyiga.Props.C07.boundary_model', 'Pyiga.Props.C07.translate_nurbs_model',
 ]
 MODULES = ['Pyiga.Model.Jet', 'Pyiga.Model.Geometry', 'Pyiga.Proofs.Jet', 'Pyiga.Proofs.Geometry', 'Pyiga.Proofs.GeoLists', 'Pyiga.Proofs.Arcs', 'Pyiga.Props.C07']
 
